@@ -291,6 +291,23 @@ func (m *Mux) add(pattern string, hs *regHandler) {
 		panic("res: registration already done for pattern " + mergePattern(m.path, pattern))
 	}
 	setAndValidateParams(n, params)
+	// Group tag indexes are parsed relative to the pattern, but are resolved
+	// against the tokens following the mount point, just like path params.
+	// Adjust them in case the pattern passes through a mounted Mux.
+	if len(hs.group) > 0 {
+		tokens := splitPattern(pattern)
+		for i, gp := range hs.group {
+			if gp.str != "" {
+				continue
+			}
+			for _, pp := range params {
+				if pp.name == tokens[gp.idx][1:] {
+					hs.group[i].idx = pp.idx
+					break
+				}
+			}
+		}
+	}
 	n.hs = hs
 
 	// Register listeners
